@@ -70,6 +70,44 @@ def run(ctx):
     # producer, paths committed by earlier evaluations)
     recs += hist.run_histories(ctx, res, 120 if thorough else 30, 6, store_kinds=("memory", "local", "memory"), on_record=on_record,
                                allow=("call", "ref", "keep", "datafn", "load", "shadow"))
+    # paths produced by an EARLIER evaluation, loaded (once / several times) in front of a keep that is fed the loaded value:
+    # produce, evaluate, change the producer, produce again, evaluate - every value is the plain one (the C09 matrix in short)
+    import copy as _copy
+    rng = ctx["rng"]
+    for li, (pl, pr, nl) in enumerate([(pl, pr, nl) for pl in ("feeds_keep", "kept", "root") for pr in ("datafn", "keep") for nl in (1, 2, 3)]):
+        if not thorough and li % 2 == (ctx["seed"] % 2):
+            continue
+        w, meta = progs.gen_load_world(rng, pl, pr, "earlier", "none", nloads=nl)
+        prod_entry = {"kind": "direct", "fun": "fp"} if pr == "datafn" else {"kind": "keep", "fun": "fp", "path": "/prod"}
+        with pipeline.Session(["memory", "local"][li % 2], tag="c01l") as s:
+            msteps = [{"set_store": "dict"}]
+            outs = []
+            for ver in range(3):
+                w2 = _copy.deepcopy(w)
+                for f in w2["funs"]:
+                    if f["name"] == "fp":
+                        for _ in range(ver % 2 + (ver // 2) * 2):
+                            f["tag"] = progs.bump_tag(f["tag"])
+                s.set_world(w2)
+                msteps.append({"world": progs.model_world(w2, s.extmod)})
+                for e in (prod_entry, {"kind": "eval", "fun": "f0"}):
+                    r, rr = s.run(e)
+                    msteps.append({"run": {"entry": e}})
+                    outs.append((e, r, rr, w2))
+                    res.evaluations += 1
+                    res.count("external_load_steps")
+                    res.nontrivial("extload %d %d %s" % (li, ver, e["kind"]))
+                    if rr["error"] is None and (r["error"] is not None or pipeline.norm_ext(r["value"]) != pipeline.norm_ext(rr["value"])):
+                        res.violations.append({"what": "value returned by dds differs from plain execution of the same code (a path produced by an earlier "
+                                                       "evaluation is loaded %d time(s)): %r (error %s) vs %r" % (nl, r["value"], r["error"], rr["value"]),
+                                               "input": {"case": meta, "version": ver, "entry": e, "source": progs.render_world(w2, "extmod")}, "kf": None})
+            if ctx["driver_ok"]:
+                ans = common.drv_batch([{"op": "history", "max": 10000, "steps": msteps}])[0]
+                for (e, r, rr, w2), m in zip(outs, ans.get("ok") or []):
+                    if r["value"] != m["value"] or r["log"] != m["log"] or (r["paths"] is not None and r["error"] is None and r["paths"] != dict(m["paths"])):
+                        res.disagreements.append({"what": "implementation differs from the model (external loads)", "case": meta, "impl": [r["value"], r["log"]],
+                                                  "model": [m["value"], m["log"]], "source": progs.render_world(w2, "extmod")})
+                        break
     # functions invoked from several sites (a path possibly kept twice): rejected explicitly, or every value right
     recs += hist.run_histories(ctx, res, 80 if thorough else 24, 3, store_kinds=("memory",), on_record=on_record, allow="multi")
     # directed stratum: literal arguments flowing down chains of keeps through run-time expressions
